@@ -77,8 +77,8 @@ static void *worker_thread_func(void *arg)
         }
         else {
             /* No common function, extracting function to use for this trial */
-            cimba_trial_func *trial_func = (cimba_trial_func *)(((char *)trial)
-                                                         + cmg_trial_struct_sz);
+            cimba_trial_func *trial_func = *(cimba_trial_func **)trial;
+            cmb_assert_release(trial_func != NULL);
             (*trial_func)(trial);
         }
     }
@@ -101,7 +101,8 @@ void cimba_run_experiment(void *your_experiment_array,
     cmb_assert_release(your_experiment_array != NULL);
     cmb_assert_release(num_trials > 0u);
     cmb_assert_release(trial_struct_size > 0u);
-    cmb_assert_release(your_trial_func != NULL);
+    cmb_assert_release((your_trial_func != NULL)
+                       || (trial_struct_size >= sizeof(cimba_trial_func *)));
 
     /* Set exception flags to trip on any floating point error */
     _mm_setcsr(0x1d00);
